@@ -103,6 +103,24 @@ Theorem C19_interleaving_matches_alone : forall d sched g pa pb tsa tsb g' a' b'
   (finished b' = true -> final_of (run_prog g tsb pb) b').
 Proof. exact interleaving_matches_alone. Qed.
 
+(* The same for any number of threads ([sched] names the thread that moves
+   next): every thread that has finished observed what the interpreter computes
+   for its program alone, and the global state is untouched.  This is what the
+   free-running cases of the correspondence check (k threads released by a
+   barrier, no lock-step) are compared against. *)
+Theorem C19_any_threads_independent : forall d sched g ts,
+  flag g = true -> Forall plain ts ->
+  exists ts', interleave_n d sched g ts = (g, ts') /\ Forall2 (solo_image d g) ts ts'.
+Proof. exact interleaving_n_independent. Qed.
+
+Theorem C19_any_threads_match_alone : forall d sched g (ps : list (tstate * prog)) g' ts',
+  flag g = true ->
+  interleave_n d sched g (map (fun tp => thread_of (fst tp) (snd tp)) ps) = (g', ts') ->
+  g' = g /\
+  forall i t', nth_error ts' i = Some t' -> finished t' = true ->
+    exists tsi p, nth_error ps i = Some (tsi, p) /\ final_of (run_prog g tsi p) t'.
+Proof. exact interleaving_n_matches_alone. Qed.
+
 (* The exception: the first installation, raced.  The intended statement ... *)
 Definition C19_install_race_benign_full : Prop := install_race_benign Racy.
 
@@ -180,6 +198,17 @@ Example C19_two_threads_example :
      mk_thread (mk_tstate false 0 None Abort) [] [EFallback Continue; ELevel 0] Running).
 Proof. vm_compute. reflexivity. Qed.
 
+(* three threads panicking inside catch_panic under one schedule: each keeps its own message *)
+Example C19_three_threads_example :
+  let p k := PCons Enable (PCons (Catch (PCons (Panic k) PNil)) PNil) in
+  map (fun t => (trace t, last (tst t)))
+      (snd (interleave_n Racy [0; 1; 2; 2; 1; 0; 0; 1; 2; 1; 0; 2; 7]%nat g_inst
+              [thread_of init_tstate (p 1); thread_of init_tstate (p 2); thread_of init_tstate (p 3)]))
+  = [([EUnit; EEnter; EPanic 1; EExit (RErr (Some 1))], Some 1);
+     ([EUnit; EEnter; EPanic 2; EExit (RErr (Some 2))], Some 2);
+     ([EUnit; EEnter; EPanic 3; EExit (RErr (Some 3))], Some 3)].
+Proof. vm_compute. reflexivity. Qed.
+
 Check C19_level_balanced : forall p g ts ev o ts' g',
   run_prog g ts p = (ev, o, ts', g') -> not_aborted o -> level ts' = level ts.
 Check C19_model_is_spec : forall p g ts,
@@ -200,6 +229,8 @@ Print Assumptions C19_machine_is_interpreter.
 Print Assumptions C19_thread_frame_step.
 Print Assumptions C19_interleaving_independent.
 Print Assumptions C19_interleaving_matches_alone.
+Print Assumptions C19_any_threads_independent.
+Print Assumptions C19_any_threads_match_alone.
 Print Assumptions C19_install_race_refuted.
 Print Assumptions C19_install_race_refuted_unknown_message.
 Print Assumptions C19_install_race_refuted_stale_message.
